@@ -42,11 +42,32 @@ def info(out):
 
 def run_task(task):
     import checks.C13 as me
+    if task["params"].get("mode") == "sanitize":
+        # sanitize_network_names (the documented step before building a diagram from a network with unusual names) on
+        # solver-chosen name tuples (checks/C17.py: sanitize_check); a call that does not return is a hang
+        import ast
+        import re
+        import time
+        from checks import C17
+        t0 = time.time()
+        classes, fails, exh = C17.sanitize_check(task["params"]["k"], task["params"]["L"], task["timebox"])
+        hangs = []
+        for f in fails:
+            m = re.match(r"names (\[.*?\]): sanitize_network_names did not terminate", f)
+            if m:
+                hangs.append({"rules": "", "hist": {"names": ast.literal_eval(m.group(1))}})
+        return {"label": task["label"], "classes": classes, "exhausted": exh, "violations": [], "inconclusive": [], "observations": classes,
+                "samples": [], "queries": {"frontier": classes}, "z3_s": 0, "real_s": 0, "wall_s": time.time() - t0, "hangs": hangs[:3]}
     return histcheck.run_task(task, me)
 
 
 def replay(rec):
     import checks.C13 as me
+    if rec["params"].get("mode") == "sanitize":
+        import biodivine_aeon as ba
+        from biobalm.petri_net_translation import sanitize_network_names
+        sanitize_network_names(ba.BooleanNetwork(list(rec["hist"]["names"])))       # returns, or the replay times out
+        return {"reproduces": False, "failing": [], "signature": None}
     if rec["params"].get("selftest"):
         import time
         time.sleep(10 ** 6)
@@ -92,6 +113,9 @@ def tasks(tier, seed, selftest=False):
     for fam in ("B22", "CH4", "R4"):
         for p in ((), ("fullbfs",)):
             S.append(dict(family=fam, skeleton=tuple(p) + ("seeds",), timebox=12 if q else 600, tag="decline", params={"fine": True, "size_mode": "decline"}))
+    # name sanitisation: solver-chosen tuples of names that need sanitising and collide afterwards
+    T_extra = [{"prop": PROP, "family": "-", "label": "sanitize/k=3", "timebox": 30 if q else 300, "seed": seed, "params": {"mode": "sanitize", "k": 3, "L": 1 if q else 2}},
+               {"prop": PROP, "family": "-", "label": "sanitize/k=4", "timebox": 30 if q else 300, "seed": seed, "params": {"mode": "sanitize", "k": 4, "L": 1}}]
     # unrestricted 4-variable networks with the growth decision forced; several solver seeds (the shape that stalls a
     # weakened progress rule is rare: about 1 class in 10 000)
     for k in range(2 if q else 12):
@@ -103,7 +127,7 @@ def tasks(tier, seed, selftest=False):
             S.append(dict(family="U3", skeleton=("succ", qy), timebox=600, cube_k=5, nbits=24))
         for fam in ("B22", "CH4", "S2C2"):
             S.append(dict(family=fam, skeleton=("build",), timebox=300, cube_k=3, nbits=20))
-    return histcheck.mk_tasks(PROP, S, seed)
+    return histcheck.mk_tasks(PROP, S, seed) + T_extra
 
 
 def main(tier, seed, t0, selftest=False):
